@@ -6,7 +6,7 @@ sd=$1; shift
 pid=$(python3 -c "import json,sys;print(json.load(open('$sd/meta.json'))['property'])")
 checks=${@:-$pid}
 wt=${WT:-/tmp/wt_$pid}
-git -C $wt checkout -q -- . ; git -C $wt status --short | grep -v '^??' | head -2
+git -C $wt checkout -q -- . ; git -C $wt checkout -q --detach $(git -C /repo rev-parse HEAD); git -C $wt status --short | grep -v '^??' | head -2
 (cd $wt && PYTHONPATH=$wt timeout 600 /venv/bin/python $sd/demo.py >/dev/null 2>&1); c0=$?
 git -C $wt apply $sd/patch.diff || { echo "PATCH-FAILED $sd"; exit 9; }
 (cd $wt && PYTHONPATH=$wt timeout 600 /venv/bin/python $sd/demo.py >/dev/null 2>&1); c1=$?
